@@ -301,7 +301,7 @@ lazy_static! {
         ].into_iter()
     );
 
-    static ref TWO_CHAR_OPERATORS: HashSet<char> = HashSet::from_iter(vec!['<', '>', '!', '=', '-'].into_iter());
+    static ref TWO_CHAR_OPERATORS: HashSet<(char, char)> = HashSet::from_iter(vec![('<', '='), ('>', '='), ('!', '='), ('-', '-')].into_iter());
 }
 
 pub fn tokenize_simple(text: &str) -> Result<Vec<Token>, ParserError> {
@@ -349,7 +349,12 @@ pub fn tokenize(text: &str) -> Result<Vec<ParserToken>, ParserError> {
     let mut current_str: Option<String> = None;
     let mut is_escaped = false;
     let mut is_comment = false;
+    // Two operator characters form one operator (<=, >=, !=, =>, --) only when they are adjacent
+    let mut current_is_operator = false;
     while let Some(current) = state.next_char() {
+        let previous_is_operator = current_is_operator;
+        current_is_operator = false;
+
         if current == '\n' {
             state.line += 1;
             state.column = 0;
@@ -496,11 +501,11 @@ pub fn tokenize(text: &str) -> Result<Vec<ParserToken>, ParserError> {
             let mut is_dual = false;
             if let Some(last) = state.tokens.last().map(|t| &t.token) {
                 match last {
-                    Token::Operator(Operator::Single('=')) if current == '>' => {
+                    Token::Operator(Operator::Single('=')) if previous_is_operator && current == '>' => {
                         state.tokens.last_mut().unwrap().token = Token::RightArrow;
                         is_dual = true;
                     },
-                    Token::Operator(Operator::Single(operator)) if TWO_CHAR_OPERATORS.contains(operator) => {
+                    Token::Operator(Operator::Single(operator)) if previous_is_operator && TWO_CHAR_OPERATORS.contains(&(*operator, current)) => {
                         state.tokens.last_mut().unwrap().token = Token::Operator(Operator::Dual(*operator, current));
                         is_dual = true;
                     }
@@ -510,6 +515,7 @@ pub fn tokenize(text: &str) -> Result<Vec<ParserToken>, ParserError> {
 
             if !is_dual {
                 state.add(Token::Operator(Operator::Single(current)));
+                current_is_operator = true;
             }
         }
     }
